@@ -224,7 +224,7 @@ def _resolve_aborts(binary, lines, res, timeout):
     while pending and rounds < 8:
         rounds += 1
         sub = [lines[i] for i in pending]
-        got = _run_sharded(binary, sub, min(timeout, 60))
+        got = _run_sharded(binary, sub, max(60, timeout // 4) if timeout > 240 else min(timeout, 60))
         for i, g in zip(pending, got):
             res[i] = g
         pending = [i for i, r in enumerate(res) if r == "(8)"]
@@ -370,7 +370,7 @@ def run_checker(checker, cases, outs):
 def evaluate_stream(ctx, st):
     """Differential run of one stream + property predicate on the implementation's own outputs."""
     lines = ["%s %s" % (st.suite, c) for c in st.cases]
-    impl = run_impl(lines, per_shard=getattr(st, "per_shard", 200))
+    impl = run_impl(lines, timeout=getattr(st, "timeout", 240), per_shard=getattr(st, "per_shard", 200))
     model, lines = resolve_needs(lines)
     st.cases = [l.split(" ", 1)[1] for l in lines]
     verdicts = run_checker(st.checker, st.cases, impl) if st.checker else ["1"] * len(lines)
